@@ -123,6 +123,14 @@ class C13(CheckBase):
                         W.apply_op(w.mdib, op)
                     except W.OpRejected:
                         pass
+            # (the corpus always contains a description modification report with a 'create' part: delivered a second time
+            # with a fresh MdibVersion it asks the consumer to create what exists already)
+            step = g._mk_create_step('NumericMetricDescriptor', 'c13.created', 'ch0.vmd0')
+            if step is not None:
+                try:
+                    W.apply_op(w.mdib, {'k': 'descr', 'iface': 'classic', 'steps': [step], 'id': 9001})
+                except W.OpRejected:
+                    pass
         with worldb.node(worldb.CONSUMER_IPS[0]):
             try:
                 c.client('Set').set_string('SET_NTP_SRV_mds0', 'a.b.c').result(timeout=5)
